@@ -1,4 +1,5 @@
 import FeatModel.Model.Solver.History
+import FeatModel.Lemmas.C08IluOffs
 /-! C08: the state machine — `init_numeric` overwrites every piece of value-dependent data, so the next `apply`
 reflects the current matrix values whatever happened before. -/
 namespace FeatModel.Solver
@@ -8,6 +9,10 @@ variable {α : Type}
 
 /-- two solver states agree on what `init_symbolic` produced -/
 def SymEq (st st' : PState α) : Prop := st.invD.size = st'.invD.size ∧ st.iluS = st'.iluS
+
+/-- what `init_symbolic` guarantees about the ILU part of the object: proper offset arrays and data arrays of the
+    matching sizes (`alloc_data`) — kept by every later step -/
+def StOk (st : PState α) : Prop := ∀ s, st.iluS = some s → s.OffsOk ∧ st.iluN.Sz s
 
 /-- two matrices share layout and pattern -/
 def SamePattern (A B : Csr α) : Prop :=
@@ -72,7 +77,7 @@ theorem initNumeric_symEq (c : Cfg α) (A : Csr α) (st st' : PState α) (h : in
 /-- the heart of the refresh property: `init_numeric; apply` depends on the previous state only through its
     symbolic part — stale factors / stale inverted diagonals cannot survive an `init_numeric` -/
 theorem initNumeric_apply_indep (tiny : α → Bool) (c : Cfg α) (A : Csr α) (st st' : PState α) (h : SymEq st st')
-    (x : Array α) :
+    (hok : StOk st) (hok' : StOk st') (x : Array α) :
     (initNumeric c A st).bind (fun s => applyStep tiny c A s x)
       = (initNumeric c A st').bind (fun s => applyStep tiny c A s x) := by
   obtain ⟨h1, h2⟩ := h
@@ -96,11 +101,58 @@ theorem initNumeric_apply_indep (tiny : α → Bool) (c : Cfg α) (A : Csr α) (
     cases hs : st'.iluS with
     | none => simp only [Except.bind, applyStep, hk]; rw [h2, hs]
     | some s =>
-      simp only
+      have e : copyDataCsr s A st.iluN = copyDataCsr s A st'.iluN :=
+        copy_resets_fill s (hok' s hs).1 A _ _ (hok s (h2.trans hs)).2 (hok' s hs).2
+      simp only [e]
       split
       · rfl
       · simp only [Except.bind, applyStep, hk]
   · simp only [Except.bind, applyStep, hk]
+
+/-- `init_numeric` keeps the invariant (`copy_data` and the factorisation work in place on arrays of fixed size) -/
+theorem initNumeric_stOk (c : Cfg α) (A : Csr α) (st st' : PState α) (h : initNumeric c A st = .ok st')
+    (hok : StOk st) : StOk st' := by
+  unfold initNumeric at h
+  cases hk : c.kind <;> simp only [hk] at h
+  case sor => cases h; exact hok
+  case ssor => cases h; exact hok
+  case matrix => cases h; exact hok
+  case ilu p =>
+    cases hs : st.iluS with
+    | none => simp only [hs] at h; cases h; exact hok
+    | some s =>
+      simp only [hs] at h
+      split at h
+      · cases h
+      · cases h
+        intro s' hs'
+        cases hs'
+        exact ⟨(hok s hs).1, factorizeNumeric_sz s _ (copyDataCsr_sz s A _ (hok s hs).2)⟩
+  all_goals
+    split at h
+    · cases h
+    · split at h
+      · cases h
+      · cases h; exact hok
+
+/-- `init_symbolic` establishes the invariant, whatever the matrix is -/
+theorem initSymbolic_stOk (c : Cfg α) (A : Csr α) (st st' : PState α) (h : initSymbolic c A st = .ok st')
+    (hok : StOk st) : StOk st' := by
+  unfold initSymbolic at h
+  cases hk : c.kind <;> simp only [hk] at h
+  case ilu p =>
+    split at h
+    · cases h
+    · cases hs0 : setStructCsr A.rows A.rowPtr A.colInd with
+      | none => simp only [hs0] at h; cases h
+      | some s0 =>
+        simp only [hs0] at h
+        cases h
+        intro s' hs'
+        simp only [Option.some.injEq] at hs'
+        subst hs'
+        exact ⟨(factorizeSymbolic_offsOk s0 (setStructCsr_offsOk _ _ _ s0 hs0).1 p).1, allocData_sz _⟩
+  all_goals (cases h; exact hok)
 
 /-- `init_symbolic` looks at the layout and the pattern only -/
 theorem initSymbolic_pattern (c : Cfg α) {A B : Csr α} (h : SamePattern A B) (st : PState α) :
@@ -113,11 +165,12 @@ theorem initSymbolic_pattern (c : Cfg α) {A B : Csr α} (h : SamePattern A B) (
     of the history with the same pattern and the same symbolic state -/
 theorem runSteps_numericPhase (tiny : α → Bool) (c : Cfg α) (rest : List (Step α)) :
     ∀ (hist : List (Step α)), (∀ s ∈ hist, s.numericPhase = true) → ∀ (A : Csr α) (st : PState α) (acc : List (Array α)),
+      StOk st →
       (∃ e, runSteps tiny c A st (hist ++ rest) acc = .error e) ∨
-      ∃ A' st' acc', SamePattern A' A ∧ SymEq st' st ∧
+      ∃ A' st' acc', SamePattern A' A ∧ SymEq st' st ∧ StOk st' ∧
         runSteps tiny c A st (hist ++ rest) acc = runSteps tiny c A' st' rest acc'
-  | [], _, A, st, acc => Or.inr ⟨A, st, acc, ⟨rfl, rfl, rfl, rfl⟩, SymEq.refl _, rfl⟩
-  | s :: hist, hall, A, st, acc => by
+  | [], _, A, st, acc, hok => Or.inr ⟨A, st, acc, ⟨rfl, rfl, rfl, rfl⟩, SymEq.refl _, hok, rfl⟩
+  | s :: hist, hall, A, st, acc, hok => by
     have hs := hall s (List.mem_cons_self ..)
     have hrest : ∀ t ∈ hist, t.numericPhase = true := fun t ht => hall t (List.mem_cons_of_mem _ ht)
     cases s with
@@ -128,20 +181,21 @@ theorem runSteps_numericPhase (tiny : α → Bool) (c : Cfg α) (rest : List (St
       cases hn : initNumeric c A st with
       | error e => exact Or.inl ⟨e, rfl⟩
       | ok st1 =>
-        rcases runSteps_numericPhase tiny c rest hist hrest A st1 acc with ⟨e, he⟩ | ⟨A', st', acc', hp, hq, hr⟩
+        rcases runSteps_numericPhase tiny c rest hist hrest A st1 acc (initNumeric_stOk c A st st1 hn hok) with
+          ⟨e, he⟩ | ⟨A', st', acc', hp, hq, hk, hr⟩
         · exact Or.inl ⟨e, he⟩
-        · exact Or.inr ⟨A', st', acc', hp, hq.trans (initNumeric_symEq c A st st1 hn), hr⟩
+        · exact Or.inr ⟨A', st', acc', hp, hq.trans (initNumeric_symEq c A st st1 hn), hk, hr⟩
     | apply x =>
       simp only [List.cons_append, runSteps]
       cases hn : applyStep tiny c A st x with
       | error e => exact Or.inl ⟨e, rfl⟩
-      | ok y => exact runSteps_numericPhase tiny c rest hist hrest A st (y :: acc)
+      | ok y => exact runSteps_numericPhase tiny c rest hist hrest A st (y :: acc) hok
     | update v =>
       simp only [List.cons_append, runSteps]
-      rcases runSteps_numericPhase tiny c rest hist hrest { A with val := v } st acc with
-        ⟨e, he⟩ | ⟨A', st', acc', hp, hq, hr⟩
+      rcases runSteps_numericPhase tiny c rest hist hrest { A with val := v } st acc hok with
+        ⟨e, he⟩ | ⟨A', st', acc', hp, hq, hk, hr⟩
       · exact Or.inl ⟨e, he⟩
-      · refine Or.inr ⟨A', st', acc', ?_, hq, hr⟩
+      · refine Or.inr ⟨A', st', acc', ?_, hq, hk, hr⟩
         obtain ⟨p1, p2, p3, p4⟩ := hp
         exact ⟨p1, p2, p3, p4⟩
 
@@ -177,10 +231,13 @@ theorem history_refresh (tiny : α → Bool) (c : Cfg α) (A : Csr α) (hist : L
   | ok st0 =>
     rw [hsym] at hrun
     simp only at hrun
-    rcases runSteps_numericPhase tiny c [.update v, .initNumeric, .apply x] hist hnum A st0 [] with
-      ⟨e, he⟩ | ⟨A', st', acc', hp, hq, hr⟩
+    have hempty : StOk (PState.empty : PState α) := fun s hs => by simp [PState.empty] at hs
+    have hok0 : StOk st0 := initSymbolic_stOk c A _ st0 hsym hempty
+    rcases runSteps_numericPhase tiny c [.update v, .initNumeric, .apply x] hist hnum A st0 [] hok0 with
+      ⟨e, he⟩ | ⟨A', st', acc', hp, hq, hk, hr⟩
     · rw [he] at hrun; cases hrun
-    · rw [hr, runSteps_tail, update_eq_of_samePattern hp v, initNumeric_apply_indep tiny c _ st' st0 hq x] at hrun
+    · rw [hr, runSteps_tail, update_eq_of_samePattern hp v,
+        initNumeric_apply_indep tiny c _ st' st0 hq hk hok0 x] at hrun
       have hfresh : runSteps tiny c { A with val := v } PState.empty [.initSymbolic, .initNumeric, .apply x] []
           = ((initNumeric c { A with val := v } st0).bind
               (fun s => applyStep tiny c { A with val := v } s x)).map (fun y => [y]) := by
